@@ -1332,7 +1332,7 @@ func (g *lf) fanout(ind int, list []ast.Stmt, sc *lfScope, k lfK) {
 		return
 	}
 	body := rs.Body.List
-	if len(body) != 3 {
+	if len(body) < 2 {
 		bad("the loop body is not `wg.Add(1); i := i; go func() { … }()`")
 		return
 	}
@@ -1343,6 +1343,10 @@ func (g *lf) fanout(ind int, list []ast.Stmt, sc *lfScope, k lfK) {
 	cp, ok := body[1].(*ast.AssignStmt)
 	if !ok || cp.Tok != token.DEFINE || len(cp.Lhs) != 1 || len(cp.Rhs) != 1 || exprString(cp.Lhs[0]) != idx || exprString(cp.Rhs[0]) != idx {
 		bad("no per-iteration copy `" + idx + " := " + idx + "` before the go statement: the goroutines would share the loop variable")
+		return
+	}
+	if len(body) != 3 {
+		bad("the loop body is not `wg.Add(1); i := i; go func() { … }()`")
 		return
 	}
 	gs, ok := body[2].(*ast.GoStmt)
